@@ -47,7 +47,7 @@ func init() {
 	vf.Register(&vf.Check{
 		ID:    "C37",
 		Level: "exploration",
-		Rule: "cases: (a) fairness — every power vector in {1..6}^1, {1..6}^2, {1..5}^3, {1..4}^4 (thorough: {1..5}^4, {1..3}^5, {1..2}^6) plus seeded random vectors for 5 and 6 validators, 3·T heights each, every sliding window of T heights counted; " +
+		Rule: "cases: (a) fairness — every power vector in {1..6}^1, {1..6}^2, {1..5}^3, {1..5}^4, {1..3}^5, {1..2}^6 (thorough also {1..4}^5, {1..3}^6) plus seeded random vectors for 5 and 6 validators, 3·T heights each, every sliding window of T heights counted; " +
 			"(b) exact-arithmetic replay of every IncrementProposerPriority call (times 1..5, sometimes 50..300) on those sets, on sets with powers near MaxTotalVotingPower (equal, one dominant, random), on sets whose priorities were set directly to any state with max-min <= 3T (forces the rescale branch) and inside update histories; " +
 			"(c) seeded random update histories of 12..40 ops over a 9-key universe (sets of 0..7 validators, small/medium/huge powers): add/change/remove lists of 1..4 entries via UpdateWithChangeSet or UpdateWithABCIValidatorUpdates, " +
 			"rejected-by-construction lists (duplicate, negative, above max, total overflow, unknown removal, remove all, zero address, nil key, address/key mismatch), interleaved increments. " +
@@ -305,11 +305,18 @@ func fairness(c *vf.Ctx, tl tally, power []int64) {
 		c.Violation("copy-increment-modified-receiver", witness(), "CopyIncrementProposerPriority modified the set it was called on")
 		return
 	}
-	for s := 0; s < steps; s++ {
-		if !increment(c, tl, vs, 1, witness) {
+	// the counting oracle observes plain single increments; the exact-arithmetic replay runs on a twin set so that
+	// each oracle reports on its own
+	twin := mkSet(members, power)
+	for s, twinOK := 0, true; s < steps; s++ {
+		if pv := vf.Try(func() { vs.IncrementProposerPriority(1) }); pv != nil {
+			c.Violation("increment-panic", witness(), "IncrementProposerPriority(1) panicked at height %d: %v", s, pv)
 			return
 		}
 		seq = append(seq, pos())
+		if twinOK {
+			twinOK = increment(c, tl, twin, 1, witness)
+		}
 	}
 	for k, got := range jumps {
 		tl["increment_jump_checks"]++
@@ -883,9 +890,12 @@ func run(c *vf.Ctx) {
 	vectors(1, 6, collect)
 	vectors(2, 6, collect)
 	vectors(3, 5, collect)
-	vectors(4, int64(c.N(4, 5)), collect)
+	vectors(4, 5, collect)
+	vectors(5, 3, collect)
 	if !c.Quick() {
-		vectors(5, 3, collect)
+		vectors(5, 4, collect)
+		vectors(6, 3, collect)
+	} else {
 		vectors(6, 2, collect)
 	}
 	r := c.Rng(7)
@@ -927,19 +937,19 @@ func run(c *vf.Ctx) {
 		}
 	}
 	// (b) huge powers
-	c.Parallel(c.N(1500, 40000), 16, 1<<20, func(i int, r *rand.Rand) {
+	c.Parallel(c.N(4000, 40000), 16, 1<<20, func(i int, r *rand.Rand) {
 		tl := tally{}
 		defer tl.flush(c)
 		hugeRun(c, tl, i, r)
 	})
-	c.Parallel(c.N(4000, 100000), 16, 1<<25, func(i int, r *rand.Rand) {
+	c.Parallel(c.N(12000, 100000), 16, 1<<25, func(i int, r *rand.Rand) {
 		tl := tally{}
 		defer tl.flush(c)
 		injectedRun(c, tl, i, r)
 	})
 	c.Logf("huge powers and injected priorities done")
 	// (c) update histories
-	c.Parallel(c.N(6000, 200000), 16, 1<<30, func(i int, r *rand.Rand) { updateHistory(c, i, r) })
+	c.Parallel(c.N(15000, 200000), 16, 1<<30, func(i int, r *rand.Rand) { updateHistory(c, i, r) })
 
 	c.Assume("math/big is the arithmetic reference; the documented algorithm of IncrementProposerPriority (rescale, centre, add power, highest priority with ties to the lower address, subtract total) is the specification of 'no overflow'")
 	c.Assume("fairness windows are asserted for sets created by NewValidatorSet (all priorities start at zero); after an update the transient towards the fair cycle is not constrained by the property")
